@@ -25,7 +25,7 @@ META = {
         "for tools: the answer set is neither empty nor everything. Distinct = case content."
     ),
     "assumptions": [
-        "weak oracle (count == len(listing), documented formula, docstring examples only) for: Number of bounces, foremaxima, afterminima, aftermaxima, foreminima - their only definition is an external reference not reproducible offline",
+        "Number of bounces, foremaxima, afterminima, aftermaxima, foreminima: the oracle is the formula the library's own documentation states (their external references are not reproducible offline), written independently on positions / on the listing oracles",
         "in the tool checks the five weak statistics are evaluated with the library's own functions",
     ],
     "extra_cov": {"weak_oracle_stats": list(S.WEAK)},
